@@ -170,6 +170,8 @@ fn construct(signed: &Value, signers: &[usize], keyspecs: &[KeySpec], builder_pa
 }
 
 pub struct CeremonyOutcome {
+    /// the edited signed part is another JSON value than the original, yet both canonicalize to the same bytes
+    pub canon_collision: Option<String>,
     pub unsignable: Option<String>,
     /// text after the wire and the channel faults
     pub text: String,
@@ -249,6 +251,7 @@ pub fn run_ceremony(t: &CeremonyTrace) -> CeremonyOutcome {
 
 pub fn finish(t: &CeremonyTrace, p: &Prepared) -> CeremonyOutcome {
     let mut out = CeremonyOutcome {
+        canon_collision: None,
         unsignable: p.unsignable.clone(),
         text: String::new(),
         sig_truth: vec![],
@@ -275,6 +278,13 @@ pub fn finish(t: &CeremonyTrace, p: &Prepared) -> CeremonyOutcome {
     for op in &t.ops {
         if apply_op(&mut cur, op, &t.keys) {
             out.fired.push(op_name(op).to_string());
+        }
+    }
+    if t.mode == Mode::C05 && cur["signed"] != state3["signed"] {
+        if let (Ok(a), Ok(b)) = (Json::canonicalize(&cur["signed"]), Json::canonicalize(&state3["signed"])) {
+            if a == b {
+                out.canon_collision = Some(String::from_utf8_lossy(&a).chars().take(200).collect());
+            }
         }
     }
     let text = match &t.wire {
@@ -371,6 +381,13 @@ pub fn judge_ceremony(t: &CeremonyTrace, o: &CeremonyOutcome) -> Vec<Finding> {
             prop: "C09".into(),
             clause: "own-output-unreadable".into(),
             detail: format!("the block the library signed and wrote ({:?}) is rejected by its own parser: {}", t.wire, o.parse_err),
+        });
+    }
+    if let Some(c) = &o.canon_collision {
+        f.push(Finding {
+            prop: "C05".into(),
+            clause: "distinct-values-same-canonical-bytes".into(),
+            detail: format!("edit {:?}: the edited signed part is another JSON value than the original, both canonicalize to {c}", t.ops),
         });
     }
     if o.unsignable.is_some() || !o.parsed {
@@ -1034,6 +1051,19 @@ pub fn run_c05(tier: Tier, seed: u64, index: u64, rec: &mut RunRecord) {
         let mut edits: Vec<DocOp> = vec![];
         // one generic mutation of the same JSON type
         edits.push(DocOp::Set { ptr: ptr.clone(), value: gen::mutate_leaf(&mut r, old) });
+        if let Value::Number(n) = old {
+            // the corners of the integer range, and the number that a wrap-around would fold onto this one
+            for x in [json!(u64::MAX), json!(1u64 << 63), json!(i64::MAX), json!(-1), json!(i64::MIN), json!(0), json!(u32::MAX as u64 + 1), json!(1u64 << 32)] {
+                if x != *old {
+                    edits.push(DocOp::Set { ptr: ptr.clone(), value: x });
+                }
+            }
+            if let Some(i) = n.as_i64() {
+                if i < 0 {
+                    edits.push(DocOp::Set { ptr: ptr.clone(), value: json!(i as u64) });
+                }
+            }
+        }
         match old {
             Value::String(s) => {
                 for n in near_collisions(s) {
